@@ -139,7 +139,7 @@ def aggSig (ft : FloatTab) (g : Graph) (q : AggQ) (ordered : Bool) (m s : Res) :
       match alone.head? with
       | some it =>
         let fl := kept.any (fun b => isFloat (srcVal ft b (itemSrc it)))
-        if itemHasMinMax it then (if fl then "agg-min-max-int-float" else "agg-min-max-numeric-text")
+        if itemHasMinMax it then "agg-min-max-numeric-text"
         else if itemIsSumAvg it then (if fl then "agg-float-accumulation" else "agg-avg-double-rounding")
         else "agg-differs"
       | none => "agg-differs"
